@@ -6,6 +6,8 @@ package main
 // -compile'd binary), plus malformed command lines for both flag sets and projects that cannot be built.
 
 import (
+	"bytes"
+	"os/exec"
 	"fmt"
 	"os"
 	"path/filepath"
@@ -323,6 +325,40 @@ func c05(c *Ctx) {
 		c.Emit(in, impl, append([]string{"way=" + way, fmt.Sprintf("status=%d", rr.status)}, tags...)...)
 	}
 	ways := []string{"mage", "hashfast", "static", "static"}
+
+	// (0) a listing that cannot be written (stdout is a full device): not a successful listing — status 1, message on stderr
+	if full, err := os.OpenFile("/dev/full", os.O_WRONLY, 0); err == nil {
+		for _, way := range []string{"mage", "static"} {
+			for _, argv := range [][]string{{"-l"}, {}} {
+				runEnv := append([]string{}, env...)
+				if len(argv) == 0 {
+					runEnv = append(runEnv, "MAGEFILE_IGNOREDEFAULT=1")
+				}
+				bin, op := mageBin, "mage.front"
+				if way == "static" {
+					bin, op = static, "mage.child"
+				}
+				cmd := exec.Command(bin, argv...)
+				cmd.Dir, cmd.Env, cmd.Stdout = dir, runEnv, full
+				var eb bytes.Buffer
+				cmd.Stderr = &eb
+				st := 0
+				if err := cmd.Run(); err != nil {
+					st = -1
+					if ee, ok := err.(*exec.ExitError); ok {
+						st = ee.ExitCode()
+					}
+				}
+				errClass := "no"
+				if strings.TrimSpace(eb.String()) != "" {
+					errClass = "yes"
+				}
+				in := J{"op": op, "funcs": c05Funcs, "env": mageEnvPairs(runEnv), "argv": argv, "conv": convRecord(argv), "cached": false, "want": "c05", "stdoutFull": true}
+				c.Emit(in, J{"status": st, "how": "listed", "calls": [][]string{}, "stderr": errClass, "errLine": "<any>"}, "class=list-stdout-full", "way="+way)
+			}
+		}
+		full.Close()
+	}
 
 	// (1) every failure kind x codes, at every position of 1..3-target lines
 	for i := 0; i < c.N; i++ {
